@@ -141,6 +141,9 @@ func patterns() []*big.Int {
 		h("7fffffffffffffffffffffffffffffff"),
 		h("80000000000000000000000000000000"),
 		h("aaaaaaaaaaaaaaaa5555555555555555"),
+		h("00000000000000000000ffffffffffff"), // top of the IPv4-mapped range ::ffff:0:0/96
+		h("00000000000000000000ffff0a000000"), // ::ffff:10.0.0.0
+		h("0000000000000000000000000a000001"), // IPv4-compatible ::10.0.0.1
 	}
 }
 
@@ -159,7 +162,7 @@ func distances(base *big.Int, p int) []*big.Int {
 }
 
 func run(r *ev.Run) {
-	r.Rule("complete product: p in 0..128 x 8 base bit patterns masked to /p x 13 block distances (0,1,2,2^8,2^32-1,2^32,2^63-1,2^63,2^64-1,2^64,2^64+1,last block,last+1) x in-block offset {0,1,size-1} x both argument orders for Offset; AddPrefixes+inverse for every distance < 2^64; plus complete windows n=0..300 around the 2^64 and 2^128 carries for p in {0,1,2,62..66,126,127,128}. Reference: math/big. Class = function/p-range/outcome.")
+	r.Rule("complete product: p in 0..128 x 11 base bit patterns (incl. IPv4-mapped and IPv4-compatible addresses) masked to /p x 13 block distances (0,1,2,2^8,2^32-1,2^32,2^63-1,2^63,2^64-1,2^64,2^64+1,last block,last+1) x in-block offset {0,1,size-1} x both argument orders for Offset; AddPrefixes+inverse for every distance < 2^64; plus complete windows n=0..300 around the 2^64 and 2^128 carries for p in {0,1,2,62..66,126,127,128}. Reference: math/big. Class = function/p-range/outcome.")
 	r.Assume("values outside the listed bit patterns / distances are not explored; only carry/borrow/shift shapes are exhaustive")
 	seenCase := map[string]bool{}
 	for p := 0; p <= 128; p++ {
